@@ -84,7 +84,7 @@ func propC07(c *Ctx) string {
 const c07Explanation = "Static path analysis (TRACE engine: structured AST interpreter, conditions evaluated over a finite QoS valuation) of broker.(*Client).processPublish/processPubrel/acker and MemoryBackend.Publish: " +
 	"(ACKAFTER) no queue send or retained write follows ack() and no error return contains ack(); (ACKONLY) PUBACK/PUBCOMP reach the wire only through the ack closure -> ackQueue -> acker, plus the direct PUBCOMP for an unknown id; " +
 	"(TABLE) per-QoS decision table of processPublish incl. PUBREC only after SavePacket(Incoming) succeeded; (RELTERM) every non-error path of processPubrel produces a PUBCOMP; " +
-	"(DELORDER) the stored QoS 2 publish is deleted before the PUBCOMP for it can be written. These are necessary ordering conditions of the property, decided on every path; the behaviour over schedules is not decided."
+	"(DELORDER) the stored QoS 2 publish is deleted before the PUBCOMP for it can be written, (RELEASE) and that delete happens in the acknowledgement closure itself, before the PUBCOMP is queued, so that it does not depend on the connection surviving until the acker runs. These are necessary ordering conditions of the property, decided on every path; the behaviour over schedules is not decided."
 
 // ---------------------------------------------------------------- ACKAFTER
 
@@ -644,6 +644,14 @@ func c07DelOrder(c *Ctx, v *vocab) {
 	r.Check(name+":DeletePacket(Incoming)≺send(PUBCOMP)", condA || condB, pos, len(pin.Traces)+nB,
 		fmt.Sprintf("closure side deletes before queueing: %v (%d enqueue paths); acker side deletes before send: %v (%d send paths). "+
 			"Neither holds: a failed PUBCOMP write leaves the publish stored and a retransmitted PUBREL forwards it a second time", condA, nA, condB, nB), c.witness(witness)...)
+	// RELEASE: deleting in the acker is not enough. Between the backend's acknowledgement and the acker's turn the
+	// connection can fail: the closure's enqueue then takes its dying arm (or the acker leaves through its dying
+	// arm) and the publish stays stored although the backend has accepted it, so the PUBREL retransmitted after the
+	// session resumption hands it on a second time. The release has to happen in the acknowledgement closure
+	// itself, before (and independent of) the enqueue.
+	rr := c.Rule("C07/RELEASE", "TRACE", "PUBREL handler: the acknowledgement closure handed to Backend.Publish deletes the stored publish (DeletePacket(Incoming)→ok) before it queues the PUBCOMP, on every path of the closure that reaches the enqueue: once the backend accepted the message, no connection failure can leave it stored", 1)
+	rr.Check(pubrel.Name+":ack closure releases the stored publish before queueing PUBCOMP", condA, pubrel.Decl.Pos(), nA,
+		fmt.Sprintf("the ack closure queues the PUBCOMP on %d path(s) without having deleted the stored publish: if the connection fails after the backend accepted the message and before the acker deletes it (the enqueue or the acker takes the dying arm), the retransmitted PUBREL forwards the message again", nA))
 }
 
 func isGeneric(t types.Type) bool {
